@@ -1,6 +1,7 @@
 import NasimModel.Proofs.Solve
 import NasimModel.Props.C16Gen
 import NasimModel.Props.C15Post
+import NasimModel.Props.C15Replay
 /-!
 # C16 — every scenario the generator returns is solvable
 
